@@ -44,3 +44,21 @@ func fromTemplate() *codec {
 	c := template
 	return &c
 }
+
+// sentinel is a struct type of which a package-level variable holds a pointer (R17.5): writing a field through
+// any pointer of that type may write the shared object.
+type sentinel struct {
+	what string
+	at   int64
+}
+
+func (s *sentinel) Error() string { return s.what }
+
+var errShared error = &sentinel{what: "shared"}
+
+// markSentinel writes a field of the shared sentinel through a pointer recovered from an interface (R17.5).
+func markSentinel(err error, at int64) {
+	if s, ok := err.(*sentinel); ok {
+		s.at = at
+	}
+}
